@@ -163,6 +163,30 @@ def gen_cycle(rng):
 
 def generate(rng, tier):
     lane = "C" if rng.chance(12) else ("G" if rng.chance(10) else ("D" if rng.chance(6) else ("Y" if rng.chance(3) else "B")))
+    if lane == "B" and rng.chance(4):
+        # several inputs on one command line, some from the same directory, with per-directory configurations some of
+        # which cannot be loaded (bad TOML, bad value, unreadable): each input ends in a result or a diagnostic
+        files, plan, args = {}, [], []
+        for di in range(rng.range(1, 3)):
+            d = "m%d" % di
+            k = rng.below(6)
+            if k == 0:
+                files[d + "/rustfmt.toml"] = "max_width = \n"
+            elif k == 1:
+                files[d + "/.rustfmt.toml"] = 'tab_spaces = "wide"\n'
+            elif k == 2:
+                files[d + "/rustfmt.toml"] = "max_width = 80\n"
+                plan.append("* %s 0 %s/rustfmt.toml errno %d" % (rng.choice(["open", "read", "stat"]), d, rng.choice([13, 5])))
+            elif k == 3:
+                files[d + "/rustfmt.toml"] = 'required_version = "0.0.1"\n'
+            elif k == 4:
+                files[d + "/rustfmt.toml"] = "max_width = %d\nunknown_option = 1\n" % rng.choice([40, 100])
+            for fi in range(rng.range(1, 3)):
+                p = "%s/f%d.rs" % (d, fi)
+                files[p] = gen_rust.unformatted(rng, 1) if rng.chance(80) else "fn broken( {\n"
+                args.append(p)
+        return {"lane": "M", "files": files, "plan": plan, "args": rng.shuffle(args) if rng.chance(50) else args,
+                "emit": rng.choice([[], ["--check"], ["--emit", "stdout"], ["-l"]]), "hashseed": rng.below(1 << 32)}
     if lane == "Y":
         d, files = gen_cycle(rng)
         return {"lane": "Y", "dir": d, "files": files, "emit": rng.choice([[], ["--check"], ["--emit", "stdout"], ["--backup"]]),
@@ -243,6 +267,17 @@ def execute(case):
     with core.Scratch() as sc:
         if case["lane"] == "C":
             return _lane_c(case, v, sc)
+        if case["lane"] == "M":
+            sc.fresh_world({"files": case["files"]})
+            res = core.run_inv(sc, {"argv": list(case["emit"]) + list(case["args"]), "hashseed": case["hashseed"], "plan": case["plan"]})
+            v.account(res)
+            ab = core.abnormal(res)
+            if ab:
+                v.add("C16:%s|several-inputs" % ab, "argv=%s plan=%s status=%s stderr=%r" % (
+                    list(case["emit"]) + list(case["args"]), case["plan"], res.status(), core.text_of(res.stderr)[-300:]))
+            v.probe("several-inputs")
+            v.sample = v.sample or {"lane": "M", "status": res.status()}
+            return v
         if case["lane"] == "Y":
             sc.fresh_world({"files": case["files"]})
             root = {"rel": case["dir"] + "/main.rs", "abs": "$ROOT/%s/main.rs" % case["dir"], "cwd": "main.rs"}[case["spelling"]]
